@@ -200,17 +200,7 @@ def _execute(spec, opts, rng, client_seg, server_seg, schedule, policy, m3, open
     if spec.get("sequential") and client_cut is None:
         # a client that sends request k only after it holds the answer to request k-1 and the proxy is quiescent
         # (every byte the origins have written so far was delivered, no hook or connect pending)
-        segs = []
-        for k, q in enumerate(reqs):
-            parts = peers.cut(q["raw"], rng, client_seg)
-            if k > 0 and parts:
-                prev = reqs[k - 1]["tag"]
-
-                def gate(drv, prev=prev):
-                    return prev in bytes(drv.out[drv.client]) and not drv.pending and not any(qq for c, qq in drv.inbox.items() if c is not drv.client)
-
-                parts[0] = (parts[0], gate)
-            segs += parts
+        segs = peers.sequential_segments(reqs, rng, client_seg)
     else:
         segs = peers.cut(stream, rng, client_seg)
     if client_cut is not None or client_eof:
